@@ -169,6 +169,11 @@ def c02multi : Drv where
     | ["crashed"] => (st, "ok")
     | ["fulfil", b] => ({ m := RaaBlock.stepEv st.m (.fulfil 1 (nat! b)) }, "ok")
     | ["rel", b] => ({ m := RaaBlock.stepEv st.m (.release 1 (nat! b)) }, "ok")
+    -- `reldup <b>`: FreeDuplicateClaimImmediately (generated releaseDuplicate); `evheld <chan> <cp> <c:p,...>`: generated pending-events disjunct
+    | ["reldup", b] => let m' := RaaBlockGen.releaseDuplicate st.m 1 (nat! b); ({ m := m' }, "blockers " ++ blockers m')
+    | ["evheld", c, cp, evs] =>
+      let l : List (Option (Nat × Nat)) := (evs.splitOn ",").map fun t => match t.splitOn ":" with | [a, b] => some (nat! a, nat! b) | _ => none
+      (st, if RaaBlockGen.held st.m (nat! c) || RaaBlockGen.heldByEvents l (nat! c) (nat! cp) then "held" else "free")
     | ["raa", obs] =>
       if RaaBlock.raaParked st.m 1 && obs == "handed" then (st, s!"MISMATCH revoke_and_ack update handed to chain::Watch while blockers [{blockers st.m}] are registered") else (st, "ok")
     | ["flush", obs] =>
